@@ -388,6 +388,25 @@ var c11Injectors = []c11Injector{
 		}
 		return true
 	}},
+	// the same option, the missing module met for the first time while the modules are built: every module of the
+	// set has a leaf of a type of the missing module, a must that uses its prefix and an if-feature on one of its features
+	{"skip-unknown/definitions-of-a-module-that-is-not-supplied", false, func(r *core.Rng, ms *yang.ModSet) bool {
+		n := 0
+		for _, m := range ms.Mods {
+			if m.Kw != "module" {
+				continue
+			}
+			n++
+			addBody(m, yang.S("import", "gone-mod", yang.S("prefix", "gone")),
+				yang.S("container", "gone-user-"+pfx(m),
+					yang.S("leaf", "typed", yang.S("type", "gone:t")),
+					yang.S("leaf-list", "typed-too", yang.S("type", "gone:t2")),
+					yang.S("leaf", "guarded", yang.S("type", "string"), yang.S("must", "../gone:x = 1")),
+					yang.S("leaf", "featured", yang.S("type", "string"), yang.S("if-feature", "gone:f"))))
+			yang.SortSections(m)
+		}
+		return n > 0
+	}},
 	{"unknown-prefix-in-type", false, func(r *core.Rng, ms *yang.ModSet) bool {
 		addBody(modA(ms), yang.S("leaf", "dl", yang.S("type", "nopfx:t")))
 		return true
